@@ -19,14 +19,17 @@ sys.path.insert(0, os.path.join(vcommon.VERIF, "gen"))
 import topologies  # noqa: E402
 
 SD = "ScionNet"
+# every step has a generous budget (measured: <= 300 s under load 100); a timeout is a tool error, never a violation
+TMO = 7200
 
 GEN_CFG = """SPECIFICATION Spec
 CONSTANTS
   K = {k}
   ATTACKS = {attacks}
   ATK_LEVEL = {level}
+  PLANS = {plans}
   PEER_BETA_NEXT = {peer_next}
-INVARIANTS Check
+INVARIANTS Check TableCheck
 """
 
 MC_CFG = """SPECIFICATION Spec
@@ -63,7 +66,7 @@ def _unq(line, pre):
     return json.loads(s)
 
 
-def generate(c, topos, attacks=False, level=1, name="gen", peer_next=True, expect_violation=False, timeout=3000):
+def generate(c, topos, attacks=False, level=1, name="gen", peer_next=True, expect_violation=False, timeout=TMO, plans=False):
     """Run Gen_ScionNet on `topos`; returns (instances sorted by index with their attacks, TlcResult, failed theorems)."""
     tp = os.path.join(c.work, name + "_topos.ndjson")
     write_ndjson(tp, topos)
@@ -71,11 +74,13 @@ def generate(c, topos, attacks=False, level=1, name="gen", peer_next=True, expec
     cfg = os.path.join(c.work, name + ".cfg")
     with open(cfg, "w") as f:
         f.write(GEN_CFG.format(k=max(1, workers), attacks="TRUE" if attacks else "FALSE", level=level,
-                               peer_next="TRUE" if peer_next else "FALSE"))
+                               peer_next="TRUE" if peer_next else "FALSE", plans="TRUE" if plans else "FALSE"))
     r = c.tlc(SD, "Gen_ScionNet", cfg=cfg, env={"TOPOS": tp}, timeout=timeout, coverage=False,
               expect_violation=expect_violation, keep_printed=False)
     insts = {}
     atks = collections.defaultdict(list)
+    plan_rows = {}
+    table = []
     failed = []
     with open(r.out_path, errors="replace") as f:
         for line in f:
@@ -86,17 +91,24 @@ def generate(c, topos, attacks=False, level=1, name="gen", peer_next=True, expec
             elif line.startswith('<<"ATK", "') and line.endswith('">>'):
                 o = _unq(line, '<<"ATK", "')
                 atks[o["inst"]].append(o)
+            elif line.startswith('<<"PLANS", "') and line.endswith('">>'):
+                o = _unq(line, '<<"PLANS", "')
+                plan_rows[o["inst"]] = o["plans"]
+            elif line.startswith('<<"PLANTABLE", "') and line.endswith('">>'):
+                table = _unq(line, '<<"PLANTABLE", "')
             elif line.startswith('<<"THEOREM-FAILED"'):
                 failed.append(line)
     out = []
-    for i in sorted(insts):
+    for n, i in enumerate(sorted(insts)):
         o = insts[i]
         o["attacks"] = atks.get(i, [])
+        o["plans"] = plan_rows.get(i, [])
+        o["plantable"] = table if n == 0 else []
         out.append(o)
     return out, r, failed
 
 
-def model_check(c, topos, fams=(), level=1, name="mc", timeout=3000):
+def model_check(c, topos, fams=(), level=1, name="mc", timeout=TMO):
     """Exhaustive exploration of the reference Router state machine (MC_ScionNet) over the packets of `fams`
     (all attack families when empty) of every instance."""
     tp = os.path.join(c.work, name + "_topos.ndjson")
@@ -174,7 +186,7 @@ def oracle_selfcheck(c):
     """Non-vacuity of the reference: with the beacon rule the pinned tree implements (peer hop MACs under
     beta_i) the theorem AllRefPathsRoundTrip must FAIL on a peering topology."""
     t = [s for s in topologies.shapes() if s["name"] == "appendixB"]
-    _, r, failed = generate(c, t, name="selfcheck", peer_next=False, expect_violation=True, timeout=900)
+    _, r, failed = generate(c, t, name="selfcheck", peer_next=False, expect_violation=True, timeout=TMO)
     if not any("AllRefPathsRoundTrip" in f for f in failed):
         c.fail_tool("oracle self-check failed: the broken peer-MAC rule no longer violates AllRefPathsRoundTrip (see %s)" % r.out_path)
 
@@ -183,7 +195,7 @@ def replay(c, binp, insts, parts, name="replay"):
     inp = os.path.join(c.work, name + "_in.ndjson")
     outp = os.path.join(c.work, name + "_out.ndjson")
     write_ndjson(inp, insts)
-    rc, so = c.sh([binp, "replay", inp, outp], env={"SN_PARTS": parts}, timeout=3000)
+    rc, so = c.sh([binp, "replay", inp, outp], env={"SN_PARTS": parts}, timeout=TMO)
     if rc != 0:
         c.fail_tool("scionnet replay failed rc=%s %s %s" % (rc, so[-300:], getattr(c, "last_stderr", "")[-300:]))
     res = vcommon.read_ndjson(outp)
@@ -215,18 +227,25 @@ def report(c, results, prop, totals=None):
 
 def record_and_validate(c, binp, prop, ntopo, nmin, nmax, pairs, paths, inject, name="trace"):
     """Seeded random larger topologies -> recorded execution of the real code -> Trace_ScionNet."""
-    rng_topos = [topologies.random_topology(topologies.Rng(c.seed * 1000 + i), "R%d-%03d" % (c.seed, i), nmin, nmax) for i in range(ntopo)]
+    # every second topology is "rich": guaranteed peering between non-core ASes and a parallel link
+    rng_topos = [topologies.random_topology(topologies.Rng(c.seed * 1000 + i), "R%d-%03d" % (c.seed, i), nmin, nmax, rich=(i % 2 == 0))
+                 for i in range(ntopo)]
+    npeer = sum(1 for t in rng_topos if any(l["t"] == "peer" for l in t["links"]))
+    npar = sum(1 for t in rng_topos if len({(l["a"], l["b"], l["t"]) for l in t["links"]}) < len(t["links"]))
+    if npeer == 0 or npar == 0:
+        c.fail_tool("vacuous trace tier: random topologies without peering (%d) or parallel links (%d)" % (npeer, npar))
+    c.cov.setdefault("trace_topologies", {}).update({"with_peering": npeer, "with_parallel_links": npar, "total": ntopo})
     tp = os.path.join(c.work, name + "_topos.ndjson")
     ev = os.path.join(c.work, name + "_events.ndjson")
     rs = os.path.join(c.work, name + "_results.json")
     write_ndjson(tp, rng_topos)
-    rc, so = c.sh([binp, "record", tp, ev, rs], env={"SN_PAIRS": pairs, "SN_PATHS": paths, "SN_INJECT": inject}, timeout=3000)
+    rc, so = c.sh([binp, "record", tp, ev, rs], env={"SN_PAIRS": pairs, "SN_PATHS": paths, "SN_INJECT": inject}, timeout=TMO)
     if rc != 0:
         c.fail_tool("scionnet record failed rc=%s %s" % (rc, so[-300:]))
     res = json.load(open(rs))
     for te in res["tool_errors"][:5]:
         c.drift("scionnet record: %s" % te)
-    r = c.tlc(SD, "Trace_ScionNet", mode="trace", env={"TRACE": ev}, timeout=3000, keep_printed=False)
+    r = c.tlc(SD, "Trace_ScionNet", mode="trace", env={"TRACE": ev}, timeout=TMO, keep_printed=False)
     tv = []
     summary = None
     rejected = None
@@ -294,7 +313,7 @@ def binding_selftest(c, binp, insts, events_path):
         def tv_count(rows, name):
             pth = os.path.join(c.work, name + ".ndjson")
             write_ndjson(pth, rows)
-            r = c.tlc(SD, "Trace_ScionNet", mode="trace", env={"TRACE": pth}, timeout=3000, keep_printed=False)
+            r = c.tlc(SD, "Trace_ScionNet", mode="trace", env={"TRACE": pth}, timeout=TMO, keep_printed=False)
             return sum(1 for l in open(r.out_path, errors="replace") if l.startswith('<<"TV", "I"'))
         base = tv_count(evs, "selftest_base")
         bad = [dict(e) for e in evs]
@@ -308,7 +327,7 @@ def binding_selftest(c, binp, insts, events_path):
         inp = os.path.join(c.work, "selftest_mutant_in.ndjson")
         outp = os.path.join(c.work, "selftest_mutant_out.ndjson")
         write_ndjson(inp, sub)
-        rc, so = c.sh([binp, "replay", inp, outp], env={"SN_PARTS": "c13", "SN_MUTANT": "nolinkstate"}, timeout=3000)
+        rc, so = c.sh([binp, "replay", inp, outp], env={"SN_PARTS": "c13", "SN_MUTANT": "nolinkstate"}, timeout=TMO)
         keys = {p["key"] for r in vcommon.read_ndjson(outp) for p in r.get("pv", [])} if rc == 0 else set()
         if not any(k.startswith("forward-down-link:linkdown") for k in keys):
             c.fail_tool("binding self-test: the mutant adapter (link state never applied) was not reported by the P-monitors")
